@@ -204,8 +204,8 @@ func vfGenName(rt *rapid.T, label string) string {
 	// Out of domain (DESIGN.md C20): a leading space directly followed by a non-ASCII rune. go-runewidth measures by grapheme
 	// cluster, a modifier or combining mark clusters onto the space, and the renderer's TrimSpace then changes the measure of
 	// the rest of the name; the display width of such a sequence is not well defined.
-	for len(name) > 1 && name[0] == ' ' && (name[1] >= 0x80 || name[1] == ' ') {
-		name = name[1:]
+	if t := strings.TrimLeft(name, " \t\n\v\f\r"); len(t) < len(name) && len(t) > 0 && t[0] >= 0x80 {
+		name = t // leading white space in front of a non-ASCII rune: dropped (see above)
 	}
 	return name
 }
